@@ -16,7 +16,14 @@ import (
 	"strconv"
 	"strings"
 
+	"net/http"
+	"net/http/httptest"
+	"time"
+
+	server "Havoc/cmd/server"
 	"Havoc/pkg/common/builder"
+	"Havoc/pkg/packager"
+	"github.com/gorilla/websocket"
 
 	"Havoc/pkg/handlers"
 	"github.com/gin-gonic/gin"
@@ -53,10 +60,7 @@ type c13World struct {
 	dir string
 }
 
-func (w *c13World) newBuilder(m map[string]string) (*builder.Builder, error) {
-	b := builder.NewBuilder(builder.BuilderConfig{Compiler64: w.dir + "/cc.sh", Compiler86: w.dir + "/cc.sh", Nasm: w.dir + "/nasm.sh"})
-	b.SetSilent(true)
-	b.SendConsoleMessage = func(string, string) {}
+func (w *c13World) configJSON(m map[string]string) string {
 	cfg := map[string]any{
 		"Sleep":            hs(m, "sleep"),
 		"Indirect Syscall": m["sys"] == "1",
@@ -76,7 +80,14 @@ func (w *c13World) newBuilder(m map[string]string) (*builder.Builder, error) {
 		cfg["Service Name"] = string(unhx(v))
 	}
 	js, _ := json.Marshal(cfg)
-	if err := b.SetConfig(string(js)); err != nil {
+	return string(js)
+}
+
+func (w *c13World) newBuilder(m map[string]string) (*builder.Builder, error) {
+	b := builder.NewBuilder(builder.BuilderConfig{Compiler64: w.dir + "/cc.sh", Compiler86: w.dir + "/cc.sh", Nasm: w.dir + "/nasm.sh"})
+	b.SetSilent(true)
+	b.SendConsoleMessage = func(string, string) {}
+	if err := b.SetConfig(w.configJSON(m)); err != nil {
 		return nil, err
 	}
 	switch m["L"] {
@@ -166,6 +177,72 @@ func (w *c13World) line(c *Ctx, in string) {
 			os.Remove(w.dir + "/payloads/Demon/MARKER")
 		}
 		c.Emit("%s => built=%s compilercalls=%d define=%s marker=%v", in, ok, ncalls, svc, merr == nil)
+	case "opbuild": // opbuild arch=<hex> format=<hex> svc=<hex> + options: the operator's build request (Gate / Stageless) through
+		// DispatchEvent of a real Teamserver with the stub compilers; every string of the request is the operator's
+		m := kvs(parts[1:])
+		b, err := w.newBuilder(m) // only to validate / produce the option text the same way
+		_ = b
+		if err != nil {
+			c.Emit("%s => BADJSON", in)
+			return
+		}
+		os.Remove(w.dir + "/argv.log")
+		marker := w.dir + "/MARKER"
+		os.Remove(marker)
+		out := guardT(10*time.Second, func() string {
+			rw := newRealWorld("c13op")
+			defer rw.close()
+			os.Chdir(w.dir) // (newRealWorld may have moved)
+			rw.ts.Settings.Compiler64, rw.ts.Settings.Compiler32, rw.ts.Settings.Nasm = w.dir+"/cc.sh", w.dir+"/cc.sh", w.dir+"/nasm.sh"
+			rw.ts.ListenerStart(handlers.LISTENER_PIVOT_SMB, handlers.SMBConfig{Name: "smb1", PipeName: "p"})
+			// the operator's connection: a websocket pair, the server side registered as client "alice"
+			got := make(chan *websocket.Conn, 1)
+			srv := httptest.NewServer(http.HandlerFunc(func(rw http.ResponseWriter, rq *http.Request) {
+				up := websocket.Upgrader{}
+				if cn, err := up.Upgrade(rw, rq, nil); err == nil {
+					got <- cn
+				}
+			}))
+			defer srv.Close()
+			cli, _, err := websocket.DefaultDialer.Dial("ws"+strings.TrimPrefix(srv.URL, "http"), nil)
+			if err != nil {
+				return "NOWS"
+			}
+			defer cli.Close()
+			sc := <-got
+			defer sc.Close()
+			rw.ts.Clients.Store("c1", &server.Client{ClientID: "c1", Username: "alice", Connection: sc, Authenticated: true})
+			go func() { // the operator's client reads what the teamserver sends
+				for {
+					if _, _, err := cli.ReadMessage(); err != nil {
+						return
+					}
+				}
+			}()
+			var pk packager.Package
+			pk.Head.Event = packager.Type.Gate.Type
+			pk.Head.User = "alice"
+			pk.Body.SubEvent = packager.Type.Gate.Stageless
+			pk.Body.Info = map[string]any{"AgentType": "Demon", "Listener": "smb1", "Arch": hs(m, "arch"), "Format": hs(m, "format"), "Config": w.configJSON(m)}
+			rw.ts.DispatchEvent(pk)
+			// the build runs in a goroutine of its own: wait for the compiler call (or for nothing to happen)
+			for i := 0; i < 150; i++ {
+				if raw, _ := os.ReadFile(w.dir + "/argv.log"); strings.Contains(string(raw), "\x01") {
+					break
+				}
+				time.Sleep(20 * time.Millisecond)
+			}
+			time.Sleep(60 * time.Millisecond)
+			return "done"
+		})
+		raw, _ := os.ReadFile(w.dir + "/argv.log")
+		ncalls := strings.Count(string(raw), "\x01")
+		_, merr := os.Stat(marker)
+		if _, e2 := os.Stat(w.dir + "/payloads/Demon/MARKER"); e2 == nil {
+			merr = nil
+			os.Remove(w.dir + "/payloads/Demon/MARKER")
+		}
+		c.Emit("%s => run=%s compilercalls=%d marker=%v", in, out, ncalls, merr == nil)
 	default:
 		panic("C13: unknown op " + parts[0])
 	}
@@ -378,8 +455,22 @@ func runC13(c *Ctx) {
 		c.Count("build.service.battery")
 		w.line(c, "build svc="+hex.EncodeToString([]byte(svc))+" "+mostlyValidOptions()+" L=smb pipe="+H("p")+" kd=0 wh="+H(""))
 	}
+	// the operator's build request: architecture and format are free text from the client
+	archs := []string{"x64", "x86", "x32", "", "X64", "x86; mk; #", "x86;mk;#", "$(mk)", "`mk`", "x64\nmk", "x86|mk", "x86&&mk", "x86 -o /dev/null; mk"}
+	formats := []string{"Windows Exe", "Windows Service Exe", "Windows Dll", "Windows Reflective Dll", "Windows Shellcode", "Windows Exe; mk", "$(mk)", ""}
+	for i, a := range archs {
+		c.Count("opbuild")
+		f := formats[i%5]
+		if i%4 == 3 {
+			f = gen.Pick(r, formats)
+		}
+		w.line(c, "opbuild arch="+H(a)+" format="+H(f)+" svc="+H(gen.Pick(r, []string{"svc", "My Service", "$(mk)"}))+" "+mostlyValidOptions())
+	}
 	for c.Lines < c.N {
 		switch k := r.Intn(40); {
+		case k == 1 && c.Lines > 5 && r.Chance(1, 3):
+			c.Count("opbuild")
+			w.line(c, "opbuild arch="+H(gen.Pick(r, archs))+" format="+H(gen.Pick(r, formats))+" svc="+H(gen.Pick(r, svcNames))+" "+mostlyValidOptions())
 		case k == 0 && c.Lines > 5:
 			svc := gen.Pick(r, svcNames)
 			if r.Bool() {
